@@ -107,6 +107,8 @@ class TNOps(TNCtor):
         n = len(r.A)
         i = int(op['site']) % n
         what = op['what']
+        # objects sharing tensor memory with the target (user level aliasing) see in-place edits too
+        siblings = [x for x in self.live() if x is not o and any(np.may_share_memory(a, b) for a in x.ref.A for b in r.A)]
         bax = 2 if o.kind == 'mps' else 3   # right bond axis
         g = np.random.Generator(np.random.PCG64(op['sub']))
         f = cplx(op.get('factor', 2.0))
@@ -134,6 +136,23 @@ class TNOps(TNCtor):
                 r.A[i][...] = r.A[i] * dgl[:, None, None]
             else:
                 r.A[i][...] = r.A[i] * dgl[:, None, None, None]
+        elif what == 'nearly_one':
+            # norm within 1e-6 of its previous value (e.g. a canonical state that is almost, but not exactly, normalised)
+            if np.issubdtype(r.A[i].dtype, np.integer):
+                return 'skipped'
+            r.A[i] = r.A[i] * [1.0 + 2.0 ** -19, 1.0 - 2.0 ** -21, 1.0 + 2.0 ** -30][int(op['sub']) % 3]
+        elif what == 'uniform':
+            # translation invariant user input: the very same array object on every site where the shape fits
+            base = r.A[i]
+            hits = 0
+            for j in range(n):
+                if j != i and r.A[j].shape == base.shape and np.array_equal(np.asarray(r.qD[j]), np.asarray(r.qD[i])) \
+                        and np.array_equal(np.asarray(r.qD[j + 1]), np.asarray(r.qD[i + 1])):
+                    r.A[j] = base
+                    hits += 1
+            if not hits:
+                return 'skipped'
+            self.probe('shared_tensor_on_several_sites')
         elif what == 'unbalance':
             # same object, extremely unbalanced tensors (exact powers of two)
             if n < 2 or np.issubdtype(r.A[0].dtype, np.integer) or np.issubdtype(r.A[-1].dtype, np.integer):
@@ -188,6 +207,9 @@ class TNOps(TNCtor):
             return 'skipped'
         o.traj = None
         self.resync(o)
+        for x in siblings:
+            x.traj = None
+            self.resync(x)
         return 'ok'
 
     def first_cut_keep(self, v, mode, tol):
@@ -362,6 +384,71 @@ class TNOps(TNCtor):
                 self.check(dev <= TOL * max(sc0, o.scale), 'C03', 'split_keeps_state', lambda: f'|state after write-back - before|={dev:.3e}')
             if not o.retired:
                 self.check_c02(o, 'split_merge write-back')
+        return 'ok'
+
+    # ================================ direct kernel calls ===================================
+    def op_kernel(self, op):
+        """
+        The public block kernels called the way a user calls them: with caller-owned matrices and charge
+        arrays that live on in the session, are updated in place and are passed again (history), and - for
+        the QR - with extreme but representable magnitudes.  Judged by the C11 / C12 monitors.
+        """
+        ptn = self.ptn
+        which = op.get('which', 'qr')
+        st = getattr(self, 'kernel_state', None)
+        reuse = bool(op.get('reuse')) and st is not None and st['which'] == which
+        if reuse:
+            A, q0, q1 = st['A'], st['q0'], st['q1']
+            how = op.get('mutate', 'negate')
+            if how == 'negate':
+                q0 *= -1
+                q1 *= -1
+            elif how == 'shift':
+                q0 += 3
+                q1 += 3
+            elif how == 'scribble_result' and st.get('qi') is not None and isinstance(st['qi'], np.ndarray) and st['qi'].flags.writeable:
+                st['qi'] += 5          # the caller owns what was returned to it
+            elif how == 'permute' and len(q0) > 1:
+                perm = np.random.Generator(np.random.PCG64(op['sub'])).permutation(len(q0))
+                q0[:] = q0[perm]
+                A[:] = A[perm, :]
+            self.probe('kernel_reused_arrays_after_inplace_update')
+        else:
+            o = self.pick(op['sel'], 'mps', lambda x: all(dn.is_int_1d_array(q) for q in x.ref.qD) and dn.is_int_1d_array(x.ref.qd)
+                          and not any(np.issubdtype(a.dtype, np.integer) for a in x.ref.A))
+            if o is None:
+                return 'skipped'
+            r = o.ref
+            i = int(op['site']) % len(r.A)
+            T = np.array(r.A[i])
+            A = T.reshape(T.shape[0] * T.shape[1], T.shape[2]).copy()
+            q0 = np.add.outer(np.asarray(r.qd), np.asarray(r.qD[i])).reshape(-1).copy()
+            q1 = np.array(r.qD[i + 1])
+            mag = op.get('magnitude', 'normal')
+            if which == 'qr' and mag == 'tiny':
+                A = A * 2.0 ** -560
+                self.probe('kernel_extreme_small')
+            elif which == 'qr' and mag == 'huge':
+                A = A * 2.0 ** 540
+                self.probe('kernel_extreme_large')
+        tol = float(op.get('tol', 0.0))
+        fnw = self.seams.wrapped['qr'] if which == 'qr' else self.seams.wrapped['split_matrix_svd']
+        snap = self.snapshot_pool()
+        self.env.begin_op(op.get('env', {}))
+        exc = None
+        out = None
+        try:
+            out = fnw(A, q0, q1) if which == 'qr' else fnw(A, q0, q1, tol)
+        except Exception as e:   # noqa
+            exc = e
+        finally:
+            self.env.end_op()
+        self.compare_pool(snap, set(), 'operand_or_bystander_modified')
+        if exc is not None:
+            self.check(False, ['C11'] if which == 'qr' else ['C12'], 'raised', f'{which} kernel: {type(exc).__name__}: {exc}')
+            self.kernel_state = None
+            return 'raised'
+        self.kernel_state = {'which': which, 'A': A, 'q0': q0, 'q1': q1, 'qi': out[2] if which == 'qr' else out[3]}
         return 'ok'
 
     # ================================ pure arithmetic =======================================
@@ -576,8 +663,16 @@ class TNOps(TNCtor):
         An = [float(np.linalg.norm(a)) or 1.0 for a in A]
         hsc = H.scale
 
+        fortran = bool(op.get('env', {}).get('layout')) and 'LAYOUT' in self.env.enabled
+
         def rnd(shape):
-            return g.normal(size=shape) + 1j * g.normal(size=shape)
+            x = g.normal(size=shape) + 1j * g.normal(size=shape)
+            return np.asfortranarray(x) if fortran else x
+        if fortran:
+            # caller-owned blocks may have any memory layout
+            BL = [np.asfortranarray(b) for b in BL]
+            BR = [np.asfortranarray(b) for b in BR]
+            self.env.fire('LAYOUT')
 
         def judge(lhs, rhs, sc, clause, i):
             self.check(abs(lhs - rhs) <= TOL * sc, 'C04', clause, lambda: f'site/bond {i}: <Y|Heff X>={lhs!r} vs dense {rhs!r} (scale {sc:.3e})')
